@@ -126,6 +126,7 @@ func (f *fsm) run() {
 
 		// signal state transition to local peer manager for coordination with
 		// the "other" fsm.
+		verifPoint("fsm.transition")
 		select {
 		case f.peer.getFSMTransitionCh(f) <- t:
 			select {
@@ -798,6 +799,7 @@ func (u *updateMessageWriter) WriteUpdate(b []byte) error {
 	case <-u.closeCh:
 		return io.ErrClosedPipe
 	default:
+		verifPoint("writer.write")
 		_, err := u.conn.Write(prependHeader(b, updateMessageType))
 		if err == nil {
 			select {
@@ -952,6 +954,7 @@ func (f *fsm) established() (fsmState, error) {
 	}
 
 	to, err := established()
+	verifPoint("fsm.established.exit")
 	f.cleanupConnAndReader()
 	f.holdTimer.Stop()
 	f.keepAliveTimer.Stop()
